@@ -57,7 +57,7 @@ def gen_cases(tier, seed):
                 cases.append({"kind": "family", "family": fam, "subject": sk, "rep": r})
     for i in range(60 if tier == "quick" else 400):
         cases.append({"kind": "history", "n_ops": [10, 20, 40][i % 3], "i": i})
-    for i in range(48 if tier == "quick" else 192):
+    for i in range(80 if tier == "quick" else 320):
         cases.append({"kind": "helper", "scenario": ["ui_json_read", "monitored_copy", "copy_out", "context_manager", "fetch_active", "ui_json_write", "elevate_then_default", "ui_json_then_default"][i % 8], "i": i})
     return cases
 
@@ -355,7 +355,21 @@ def judge_calls(rec, case, calls, path, index, skey, label):
     watch = FileWatch(path)
     d = tempfile.mkdtemp(prefix="gvm_c10_")
     issued = []
+
+    def content_digest(p):
+        """Digest of what the file holds (raw snapshot through plain h5py): insensitive to where HDF5 placed things."""
+        from .. import snap
+        from ..core import digest
+
+        return digest(snap.raw_snapshot(p))
+
     try:
+        # control: the twin opened r+ and closed with no call in between (the library re-saves the root on close)
+        cpath = os.path.join(d, f"control_{os.getpid()}.geoh5")
+        shutil.copyfile(path, cpath)
+        Workspace(cpath, mode="r+").close()
+        control = content_digest(cpath)
+        os.remove(cpath)
         for name, fn in calls:
             tpath = os.path.join(d, f"twin_{os.getpid()}.geoh5")
             shutil.copyfile(path, tpath)
@@ -368,8 +382,18 @@ def judge_calls(rec, case, calls, path, index, skey, label):
                 twin.close()
             except Exception:  # noqa: BLE001
                 pass
+            deferred = False
             if os.path.exists(tpath):
+                # some storage (concatenated attributes) is only written when the workspace closes: compare with the control
+                if not wrote and twin_exc is None and not name.startswith("get:"):
+                    try:
+                        deferred = content_digest(tpath) != control
+                    except Exception:  # noqa: BLE001
+                        deferred = False
                 os.remove(tpath)
+            if deferred:
+                wrote = -1
+                rec.see("twin-deferred-writers")
             ro = Workspace(path, mode="r")
             try:
                 ro_exc = run_call(fn, ro, skey, index)
@@ -377,7 +401,7 @@ def judge_calls(rec, case, calls, path, index, skey, label):
                 watch.judge(rec, ro, name, label, "")
                 if wrote and twin_exc is None:
                     rec.see("twin-writers")
-                    rec.check("C10.must-raise", ro_exc is not None, op=name, cls=label, attr="", detail=f"{name} on {label}: the r+ twin issued {wrote} write-mode storage calls and succeeded; on the read-only workspace the call returned without an error")
+                    rec.check("C10.must-raise", ro_exc is not None, op=name, cls=label, attr="", detail=f"{name} on {label}: the r+ twin " + (f"issued {wrote} write-mode storage calls" if wrote > 0 else "changed the file's content when it closed") + " and succeeded; on the read-only workspace the call returned without an error")
                 elif twin_exc is not None:
                     rec.see("twin-refused")
                 else:
@@ -654,10 +678,29 @@ def run_helper(case, rec, rng, path, index, d):
             ro.close()
         else:
             ro = Workspace(path, mode="r")
-        variant = case["i"] // 8 % 3
+        variant = case["i"] // 8 % 5
+
+        class Fault(Exception):
+            pass
+
         if variant == 0:
             with fetch_active_workspace(ro, mode="r+"):
                 pass
+        elif variant in (3, 4):  # the temporary writable block is left by an exception
+            try:
+                if variant == 3:
+                    with fetch_active_workspace(ro, mode="r+"):
+                        raise Fault()
+                else:
+                    ro.close()
+                    with ro.open(mode="r+"):
+                        raise Fault()
+            except Fault:
+                pass
+            rec.see("elevations-aborted")
+            still = bool(ro._geoh5)  # noqa: SLF001
+            mode_now = ro.geoh5.mode if still else "closed"
+            rec.check("C10.mode", mode_now in ("closed", "r"), op="after-aborted-elevation", cls=label, attr=sc, detail=f"an exception left the temporary r+ block; the workspace constructed read-only is now in mode {mode_now!r}")
         elif variant == 1:
             ro.close()
             ro.open(mode="r+")
@@ -697,5 +740,5 @@ def run_helper(case, rec, rng, path, index, d):
             ro.close()
         judge_close(rec, watch, label)
     rec.nontrivial = True
-    rec.shape = ["helper", sc, case["i"] // 8 % 3]
+    rec.shape = ["helper", sc, case["i"] // 8 % 5]
     rec.sample = {"family": "helper", "scenario": sc}
